@@ -1,4 +1,5 @@
 import KamalProxy.Driver.Control
+import KamalProxy.Driver.Rollout
 open KamalProxy
 
 /-- one engine = a state type, an initial state and a line step; `reset` starts a new case -/
@@ -20,4 +21,5 @@ def main (args : List String) : IO UInt32 := do
   let stdout ← IO.getStdout
   match args with
   | ["control"] => loop stdin stdout State.init Driver.Control.stepLine State.init; return 0
+  | ["rollout"] => loop stdin stdout () Driver.Rollout.stepLine (); return 0
   | _ => IO.eprintln "usage: kpmodel <engine>"; return 2
